@@ -393,7 +393,66 @@ def main():
     if a.replay:
         sys.exit(replay(a.replay))
     seed = int(os.environ.get('VERIF_SEED', '0'))
+    if a.tier == 'thorough' and os.environ.get('VERIF_WORKER') != '1' and os.environ.get('VERIF_SKIP_LEAN') != '1':
+        sys.exit(thorough_fanout(a.prop, seed))
     sys.exit(check(a.prop, a.tier, seed))
+
+
+def thorough_fanout(prop, seed):
+    """thorough tier: the registered pass (proof audit + leanchecker + correspondence + oracle with `seed`)
+    plus VERIF_WORKERS further correspondence/oracle passes with other seeds in parallel processes; every
+    pass must come out clean. Worker evidence goes to build/workers/, their VIOLATION lines are forwarded."""
+    import subprocess
+    nw = int(os.environ.get('VERIF_WORKERS', '6'))
+    wdir = os.path.join(BUILD, 'workers', prop)
+    import shutil
+    shutil.rmtree(wdir, ignore_errors=True)
+    os.makedirs(wdir, exist_ok=True)
+    # the Lean build must exist before workers start the driver
+    rc0, _ = sh(['lake', 'build', 'PySpikeVerif', 'pyspike_model'], cwd=LEAN_DIR)
+    procs = []
+    for k in range(nw):
+        sd = seed + 101 * (k + 1)
+        env = dict(os.environ, VERIF_WORKER='1', VERIF_SKIP_LEAN='1', VERIF_SEED=str(sd),
+                   VERIF_EVIDENCE_DIR=os.path.join(wdir, 'seed%d' % sd))
+        procs.append((sd, subprocess.Popen([sys.executable, '-W', 'ignore', '-m', 'harness', prop, '--tier', 'thorough'],
+                                           cwd=VERIF, env=env, stdout=subprocess.PIPE, stderr=subprocess.STDOUT)))
+    rc = check(prop, 'thorough', seed)
+    extra_runs = []
+    for sd, pr in procs:
+        out = pr.communicate()[0].decode(errors='replace')
+        evp = os.path.join(wdir, 'seed%d' % sd, prop + '.json')
+        cov = {}
+        try:
+            cov = json.load(open(evp))['coverage']
+        except Exception:
+            pass
+        extra_runs.append({'seed': sd, 'exit': pr.returncode, 'evaluations': cov.get('evaluations'),
+                           'oracle_scenarios': cov.get('oracle_scenarios'),
+                           'correspondence_disagreements': len(cov.get('disagreements', []))})
+        if pr.returncode != 0:
+            rc = 1
+            for l in out.split('\n'):
+                if l.startswith('VIOLATION') or l.startswith('  '):
+                    print(l)
+            if not any(l.startswith('VIOLATION') for l in out.split('\n')):
+                # a worker died without a verdict: the property is not shown on that pass
+                path = write_replay(prop, sd, 900, {'property': prop, 'kind': 'no-longer-shown', 'broken_obligations':
+                                                    ['worker pass with seed %d ended with exit %s: %s' % (sd, pr.returncode, out[-800:])],
+                                                    'correspondence_disagreements': [], 'rerun': './check --replay <this file>'})
+                print('VIOLATION property=%s replay=%s no-failing-input-found' % (prop, path))
+    # fold the extra passes into the evidence file of this run
+    evp = os.path.join(os.environ.get('VERIF_EVIDENCE_DIR') or os.path.join(VERIF, 'evidence'), prop + '.json')
+    try:
+        ev = json.load(open(evp))
+        ev['coverage']['extra_seed_passes'] = extra_runs
+        ev['coverage']['evaluations'] += sum(r['evaluations'] or 0 for r in extra_runs)
+        ev['violations'] += sum(1 for r in extra_runs if r['exit'] != 0)
+        json.dump(ev, open(evp, 'w'), indent=1, default=str)
+    except Exception as ex:
+        print('note: could not fold worker passes into the evidence file: %r' % ex)
+    print('%s thorough: %d further seed passes %s' % (prop, nw, [(r['seed'], r['exit']) for r in extra_runs]))
+    return rc
 
 
 if __name__ == '__main__':
